@@ -109,6 +109,18 @@ def main(argv):
                                 "unexpected axioms: %s" % extra if extra else a["tail"]))
     if not status["driver_ok"]:
         obligations.append(("extraction+driver", False, status["driver_msg"][-300:]))
+    # transcription pins: the functions this property is anchored in still have the bodies the models were written against
+    try:
+        sys.path.insert(0, os.path.join(common.VERIF, "translator"))
+        import pins
+        want = json.load(open(os.path.join(common.VERIF, "translator", "pins_by_property.json"))).get(prop, [])
+        pinned = json.load(open(os.path.join(common.VERIF, "translator", "pins.json")))
+        now = pins.digests(common.REPO)
+        changed = [k for k in want if pinned.get(k) != now.get(k)]
+        obligations.append(("transcription:%d anchored functions" % len(want), not changed,
+                            "body changed since the model was written: " + ", ".join(changed[:6])))
+    except Exception as e:
+        obligations.append(("transcription:pins", False, "cannot compute: %r" % (e,)))
     broken_obl = [o for o in obligations if not o[1]]
 
     ctx = {"tier": tier, "seed": seed, "status": status, "broken": broken_obl,
